@@ -1239,6 +1239,13 @@ def _forward_result_temps(fn: ast.FunctionDef) -> None:
                 out.append(nxt)
                 i += 2
                 continue
+            if isinstance(st, ast.Assign) and len(st.targets) == 1 and isinstance(st.targets[0], ast.Name) and st.targets[0].id.startswith("__ret") \
+                    and stores.get(st.targets[0].id) == 1 and loads.get(st.targets[0].id) == 1 and isinstance(nxt, ast.Return) \
+                    and isinstance(nxt.value, ast.Name) and nxt.value.id == st.targets[0].id:
+                nxt.value = st.value            # __retN = E; return __retN
+                out.append(nxt)
+                i += 2
+                continue
             if isinstance(st, ast.If) and isinstance(nxt, ast.Assign) and len(nxt.targets) == 1 and isinstance(nxt.targets[0], ast.Name) \
                     and isinstance(nxt.value, ast.Name) and nxt.value.id.startswith("__ret") and loads.get(nxt.value.id) == 1:
                 t = nxt.value.id
@@ -2601,7 +2608,7 @@ def desugar_match(fn: ast.FunctionDef) -> ast.FunctionDef:
     return new
 
 
-def normalize(repo: Repo, ci: Optional[ClassInfo], fn: ast.FunctionDef, sf: Optional[SourceFile] = None, aliases: bool = False, **kw) -> ast.FunctionDef:
+def normalize(repo: Repo, ci: Optional[ClassInfo], fn: ast.FunctionDef, sf: Optional[SourceFile] = None, aliases: bool = True, **kw) -> ast.FunctionDef:
     """flatten, then unroll (and, on request, expand attribute-chain aliases): the form in which rules read a function."""
     out = _flatten_only(repo, ci, deannotate(fn), sf, **kw)
     if any(isinstance(n, ast.Match) for n in ast.walk(out)):
@@ -4435,6 +4442,8 @@ def expand_cached_locals(fn: ast.FunctionDef) -> ast.FunctionDef:
             if stores.get(nm) != 1 or nm in params or nm in loop_targets or nm in subst:
                 continue
             kind = "const" if is_const_display(v) else None
+            if kind is None and isinstance(v, ast.Name) and stores.get(v.id, 0) == 0 and v.id not in params and v.id[:1].isupper():
+                kind = "const"          # `T = DisconnectingModule`: another name for a module-level class
             roots: Set[str] = set()
             if kind is None:
                 r = callee_chain(v)
